@@ -8,6 +8,7 @@ From LV Require Import Base.Bytes Model.Obj Model.DocQ Model.PageTree Model.Trav
   Proofs.EditProofsBm Proofs.EditProofsOutline Proofs.EditProofsContent2 Proofs.EditProofsDecode Proofs.EditProofsRes
   Proofs.EditProofsEx2 Proofs.EditProofsCount Model.StreamFilt.
 From LV Require Import Gen.Consts Spec.Dfs Spec.DfsCounts Spec.PageTreeEdit Proofs.EditProofsTree Proofs.EditProofsTree2 Proofs.EditProofsRes2 Proofs.EditProofsFrame Proofs.EditProofsTree3.
+From LV Require Import Spec.PageTreeEditInd Proofs.EditProofsTreeInd.
 From LV Require Proofs.PageTreeProofs.
 From LV Require Proofs.FilterProofsDict.
 From LV Require Model.Outline Spec.OutlineSpec Proofs.OutlineProofs.
@@ -670,6 +671,78 @@ Proof.
   exact (conj H1 (conj H2 (conj H3 (conj H4 (conj H5 (conj H6 H7)))))).
 Qed.
 
+(* ------------------------------------------------------------------------------------------ *)
+(* The tree-level clause on the domain /repo e03ecb9 opened: a Pages node's Count may sit BEHIND REFERENCES.
+   [page_doc_ind d t] (Spec/PageTreeEditInd.v) = [page_doc d t] with "Count = number of leaves below the node" read the way
+   ISO 32000-1 7.3.10 allows: the entry is that integer, or a reference that leads -- through any number of reference
+   objects within the crate's dereference limit -- to an integer object holding it ([count_reads]); such integer objects may
+   be shared between nodes.  [page_doc d t -> page_doc_ind d t] (C11_page_doc_ind_contains_page_doc).
+   Conclusion of C11_delete_pages_tree, and: a Count that was a direct integer stays one; every Count the call rewrites
+   ([touched]: the ancestors of each deleted page, in the tree it is deleted from) is a DIRECT integer afterwards (the code
+   replaces the entry by the number, it never writes into the shared integer object); the others keep their entry and still
+   read the right number.
+   _partial: leaves are still dictionary OBJECTS; a page that is a reference object leading to the page dictionary (the shape
+   /repo 526b3cc repaired) is covered at chain level only (C11_delete_pages_one_chain).  What the tree level would need: the
+   invariant "the dictionaries the tree ids END at are pairwise different" (two ids that end at one dictionary are one page)
+   carried through delete_object, and C12's enumeration for such leaves. *)
+Theorem C11_delete_pages_tree_indirect_counts_partial :
+  forall d t ns,
+    doc_wf d -> page_doc_ind d t -> (N.of_nat (height t) <= PAGE_TREE_DEPTH_LIMIT + 1)%N ->
+    exists d',
+      delete_pages d ns = (d', LOk) /\ doc_wf d' /\
+      let t' := prune_all (sel (get_pages d) ns) t in
+      page_doc_ind d' t' /\ PageTreeProofs.tree_wf d' t' /\ counts_exact (d_objects d') t' /\
+      page_iter d = leaves t /\ page_iter d' = leaves t' /\
+      page_iter d' = map snd (filter (fun np => negb (existsb (N.eqb (fst np)) ns)) (get_pages d)) /\
+      (forall x, In x (nodes t) -> count_is_direct (d_objects d) x -> count_is_direct (d_objects d') x) /\
+      (forall x, In x (touched (sel (get_pages d) ns) t) -> count_is_direct (d_objects d') x).
+Proof.
+  intros d t ns W PD Hh. destruct (delete_pages_tree_ind d t ns W PD Hh) as [d' [E [W' [PD' [I1 [I2 [I3 [K T]]]]]]]].
+  exists d'. split; [exact E|]. split; [exact W'|]. cbv zeta.
+  destruct (page_doc_ind_tree_wf _ _ PD') as [TW CE]. repeat (split; [assumption|]). exact T.
+Qed.
+
+(* one round of the loop on that domain; the ancestors of p ([chain p t], nearest first) get direct Counts *)
+Theorem C11_delete_page_step_indirect :
+  forall d t p, doc_wf d -> page_doc_ind d t -> (In p (leaves t) \/ lookup (d_objects d) p = None) ->
+    exists d2,
+      (forall pages n ns, assoc_N pages n = Some p ->
+         delete_pages_loop pages (n :: ns) d = delete_pages_loop pages ns d2) /\
+      doc_wf d2 /\ page_doc_ind d2 (prune p t) /\ leaves (prune p t) = without p (leaves t) /\
+      lookup (d_objects d2) p = None /\
+      (forall x, lookup (d_objects d) x = None -> lookup (d_objects d2) x = None) /\
+      ~ In p (nodes t) /\
+      (forall x, In x (chain p t) -> count_is_direct (d_objects d2) x) /\
+      (forall x, In x (ids t) -> x <> p -> count_is_direct (d_objects d) x -> count_is_direct (d_objects d2) x).
+Proof. exact delete_page_step_ind. Qed.
+
+(* the wider domain contains the old one, and is a [tree_wf] document with exact Counts in C12's vocabulary *)
+Theorem C11_page_doc_ind_contains_page_doc :
+  (forall d t, page_doc d t -> page_doc_ind d t) /\
+  (forall d t, page_doc_ind d t -> PageTreeProofs.tree_wf d t /\ counts_exact (d_objects d) t) /\
+  (forall m d n, count_reads m d n <-> read_count m d = Some n).
+Proof. exact (conj page_doc_is_ind (conj page_doc_ind_tree_wf count_reads_read)). Qed.
+
+(* non-vacuity: root 2 (Count -> object 7 -> object 8 = 3) with kids page 3, section 4 (page 5; Count -> object 9 = 1), section 10
+   (page 11; Count -> the SAME object 9); not a [page_doc].  delete_pages [2; 2; 9] removes page 5: sections 4 and 2 are touched and
+   hold the direct integers 0 and 2, section 10 still refers to object 9, which still holds 1 *)
+Theorem C11_delete_pages_tree_indirect_example :
+  doc_wf tree_doc_ind /\ page_doc_ind tree_doc_ind tree_ex_ind /\ ~ page_doc tree_doc_ind tree_ex_ind /\
+  (N.of_nat (height tree_ex_ind) <= PAGE_TREE_DEPTH_LIMIT + 1)%N /\
+  get_pages tree_doc_ind = [(1, (3,0)); (2, (5,0)); (3, (11,0))]%N /\
+  prune_all (sel (get_pages tree_doc_ind) [2; 2; 9]%N) tree_ex_ind =
+    PNode (2,0)%N [PLeaf (3,0)%N; PNode (4,0)%N []; PNode (10,0)%N [PLeaf (11,0)%N]] /\
+  touched (sel (get_pages tree_doc_ind) [2; 2; 9]%N) tree_ex_ind = [(4,0); (2,0)]%N /\
+  let d' := fst (delete_pages tree_doc_ind [2; 2; 9]%N) in
+  page_iter d' = [(3,0); (11,0)]%N /\
+  count_entry d' (2,0)%N = Some (OInt 2) /\ count_entry d' (4,0)%N = Some (OInt 0) /\
+  count_entry d' (10,0)%N = Some (ORef 9 0) /\ lookup (d_objects d') (9,0)%N = Some (OInt 1).
+Proof.
+  destruct tree_ind_example as [H1 [H2 [H3 H4]]].
+  exact (conj H1 (conj H2 (conj tree_ind_example_not_direct (conj H3 H4)))).
+Qed.
+
+
 Print Assumptions C11_alloc_invariant.
 Print Assumptions C11_alloc_fresh.
 Print Assumptions C11_alloc_no_collision.
@@ -727,3 +800,7 @@ Print Assumptions C11_count_invariant.
 Print Assumptions C11_count_invariant_example.
 Print Assumptions C11_example.
 Print Assumptions C11_example_doc_ops.
+Print Assumptions C11_delete_pages_tree_indirect_counts_partial.
+Print Assumptions C11_delete_page_step_indirect.
+Print Assumptions C11_page_doc_ind_contains_page_doc.
+Print Assumptions C11_delete_pages_tree_indirect_example.
